@@ -15,7 +15,7 @@ from vf import core
 from vf import flowgen as fg
 
 KINDS = fg.KINDS
-QUICK_KINDS = ("httpresp", "tcp", "dnsresp")
+QUICK_KINDS = ("httpresp", "tcp")
 PARTS = ("boundary", "digits", "colon", "after_colon", "payload", "tag")
 CODE = {p: i for i, p in enumerate(PARTS)}
 OUTER_MAPPED = frozenset({"ValueError", "TypeError", "IndexError", "RecursionError"})  # io.py outer handler
@@ -355,13 +355,15 @@ class Check(core.PropertyCheck):
                            "MaxCrash": 0, "MaxOpen": 2, "AllowRefinish": True}
         if tier == "dumped":
             return base | {"Kinds": frozenset(("httpresp", "ws", "tcp", "udp", "dnsresp")), "MaxFlows": 2, "MaxCrash": 1}
-        if tier == "life":
-            return base | {"Kinds": frozenset(("httpresp", "ws", "tcp", "udp", "dnsresp")), "Modes": frozenset({"stream"}),
+        if tier == "life":  # no ws here: Save.error ignores WebSocket flows (they complete with websocket_end only)
+            return base | {"Kinds": frozenset(("httpresp", "httperr", "tcp", "udp", "dnsresp")), "Modes": frozenset({"stream"}),
                            "MaxFlows": 2, "MaxCrash": 0, "MaxOpen": 2, "AllowRefinish": True}
         if tier == "sim":
-            return base | {"Kinds": frozenset(KINDS), "MaxFlows": 4, "MaxCrash": 2, "MaxOpen": 2, "AllowRefinish": True}
-        return base | {"Kinds": frozenset(("httpresp", "tcp", "dnsresp")), "MaxFlows": 3, "MaxCrash": 1, "MaxOpen": 2,
-                       "AllowRefinish": True}  # exhaustive, not dumped
+            return base | {"Kinds": frozenset(k for k in KINDS if k != "ws"), "MaxFlows": 4, "MaxCrash": 2, "MaxOpen": 2, "AllowRefinish": True}
+        if tier == "life_big":     # exhaustive, not dumped
+            return base | {"Kinds": frozenset(("httpresp", "tcp", "dnsresp")), "Modes": frozenset({"stream"}), "MaxFlows": 3,
+                           "MaxCrash": 0, "MaxOpen": 2, "AllowRefinish": True}
+        return base | {"Kinds": frozenset(("httpresp", "ws", "tcp", "dnsresp")), "MaxFlows": 3, "MaxCrash": 1}  # not dumped
 
     def model_runs(self, ctx):
         if ctx.quick:
@@ -370,7 +372,8 @@ class Check(core.PropertyCheck):
         big = ctx.model_check(self.MODEL, self.model_constants("thorough"), dump=False, tag="_big")
         small = ctx.model_check(self.MODEL, self.model_constants("dumped"), dump=True, timeout=1500)
         life = ctx.model_check(self.MODEL, self.model_constants("life"), dump=True, timeout=1500, tag="_life")
-        return [small, life, big]
+        life_big = ctx.model_check(self.MODEL, self.model_constants("life_big"), dump=False, tag="_lifebig")
+        return [small, life, big, life_big]
 
     @staticmethod
     def _ops(beh):
@@ -520,7 +523,7 @@ class Check(core.PropertyCheck):
         started = 0
         for _ in range(4 * n + 4):
             live = [i + 1 for i, f in enumerate(run.flows) if f[2] in ("active", "early", "stopped")]
-            fin = [i + 1 for i, f in enumerate(run.flows) if f[2] == "finished"]
+            fin = [i + 1 for i, f in enumerate(run.flows) if f[2] == "finished" and f[1] != "ws"]
             choices = []
             if started < n:
                 choices += ["start", "start", "silent_start"]
